@@ -35,6 +35,8 @@ type xcase struct {
 	Perturb    []perturb
 	HashAlg    string
 	SlotFrac   float64 // --small-slot-frac (0 = the tool's default)
+	SmallThr   int64   // scheduler size classes: files up to SmallThr are "small", up to MediumThr "medium"
+	MediumThr  int64   // (0 = the tool's defaults, 4 MiB and 64 MiB - above every generated file)
 }
 
 type perturb struct {
@@ -49,7 +51,7 @@ var perturbSites = []string{"send.chunk.before", "send.fileend.before", "send.re
 
 func (x xcase) String() string {
 	return fmt.Sprintf("chunk=%d hash=%q streams=%d conns=%d resume(s=%v,r=%v) noroot=%v mode=%s legacy=%v quicvis=%v window=%d segment=%d perturb=%v tree=%s",
-		x.Chunk, x.HashAlg, x.Streams, x.Conns, x.SendResume, x.RecvResume, x.NoRootDir, x.Mode, x.Legacy, x.QUICVis, x.Window, x.Segment, x.Perturb, x.Tree.Describe()) + slotFracNote(x.SlotFrac)
+		x.Chunk, x.HashAlg, x.Streams, x.Conns, x.SendResume, x.RecvResume, x.NoRootDir, x.Mode, x.Legacy, x.QUICVis, x.Window, x.Segment, x.Perturb, x.Tree.Describe()) + slotFracNote(x.SlotFrac) + thresholdNote(x)
 }
 
 func (x xcase) fingerprint() string {
@@ -187,8 +189,8 @@ func (p *prepared) sendOpts() transfer.Options {
 	chunk := uint32(p.x.Chunk)
 	return transfer.Options{
 		ChunkSize: chunk, ParallelFiles: total, StripeMax: p.x.Conns, Resume: p.x.SendResume, ResolveFilePath: p.resolve, HashAlg: p.x.HashAlg,
-		SmallSlotFrac: p.x.SlotFrac,
-		ParamSource:   func() transfer.RuntimeParams { return transfer.RuntimeParams{ChunkSize: chunk, ParallelFiles: total} },
+		SmallSlotFrac: p.x.SlotFrac, SmallThreshold: p.x.SmallThr, MediumThreshold: p.x.MediumThr,
+		ParamSource: func() transfer.RuntimeParams { return transfer.RuntimeParams{ChunkSize: chunk, ParallelFiles: total} },
 	}
 }
 
@@ -294,6 +296,26 @@ func frac(t *rapid.T, label string) float64 {
 	v = (v ^ (v >> 27)) * 0x94D049BB133111EB
 	v ^= v >> 31
 	return float64(v>>11) / float64(1<<53)
+}
+
+// genThresholds draws the scheduler's size classes relative to the chunk size, so that the
+// generated files (a few chunks each) fall into all three classes.
+func genThresholds(t *rapid.T, x *xcase) {
+	switch rapid.IntRange(0, 3).Draw(t, "size_classes") {
+	case 1:
+		x.SmallThr = int64(x.Chunk)
+	case 2:
+		x.SmallThr, x.MediumThr = int64(x.Chunk), int64(3*x.Chunk)
+	case 3:
+		x.SmallThr, x.MediumThr = int64(2*x.Chunk)+1, int64(5*x.Chunk)
+	}
+}
+
+func thresholdNote(x xcase) string {
+	if x.SmallThr == 0 && x.MediumThr == 0 {
+		return ""
+	}
+	return fmt.Sprintf(" small<=%d medium<=%d", x.SmallThr, x.MediumThr)
 }
 
 func slotFracNote(f float64) string {
